@@ -29,9 +29,11 @@ import (
 	"math/rand"
 	"net"
 	"os"
+	"runtime"
 	"sort"
 	"strconv"
 	"strings"
+	"sync"
 	"testing"
 	"time"
 
@@ -136,7 +138,20 @@ func (j *vC05PlainJob) WriteMsg(m *dns.Msg) error {
 
 // ---------------------------------------------------------------- scripted stub resolver
 
+// vC05Goid is the id of the calling goroutine (the number in the first line of its stack trace).
+func vC05Goid() uint64 {
+	var buf [64]byte
+	f := strings.Fields(string(buf[:runtime.Stack(buf[:], false)]))
+	if len(f) < 2 {
+		return 0
+	}
+	n, _ := strconv.ParseUint(f[1], 10, 64)
+	return n
+}
+
 type vC05Stub struct {
+	mu *sync.Mutex // guards *log: background refresh workers reach the stub from their own goroutines
+	fg *uint64     // the goroutine that serves the history's packets (everything else is background work)
 	log   *[]string
 	epoch *int // the scripted universe's validation epoch: signed names validate (AD) in even epochs only
 }
@@ -353,7 +368,16 @@ func (s vC05Stub) ServeDNS(ctx context.Context, ch *middleware.Chain) {
 		if !ch.Writer.Internal() {
 			line += " client"
 		}
+		// origin: a query that reaches resolution on the goroutine serving the client's packet belongs
+		// to that packet (its own hand-off and the sub-queries of its alias chase, in their order);
+		// one that arrives on another goroutine is background work (the refresh queue's four workers
+		// run concurrently, so the order among their queries is not a fact of either server)
+		if s.fg != nil && vC05Goid() != *s.fg {
+			line = "bg " + line
+		}
+		s.mu.Lock()
 		*s.log = append(*s.log, line)
+		s.mu.Unlock()
 	}
 	epoch := 0
 	if s.epoch != nil {
@@ -463,6 +487,8 @@ func vC05Config(t vC05Toggles, hostsPath string) *config.Config {
 
 type vC05Server struct {
 	s     *Server
+	mu    sync.Mutex
+	fg    uint64
 	log   []string
 	epoch int
 	total time.Duration // virtual clock advance so far
@@ -491,19 +517,42 @@ func (vs *vC05Server) shift(d time.Duration) {
 }
 
 func vC05NewServer(t vC05Toggles, hostsPath string) *vC05Server {
-	vs := &vC05Server{}
+	vs := &vC05Server{fg: vC05Goid()}
 	middleware.Reset()
 	if t.minimalPipe {
 		middleware.Register("edns", func(cfg *config.Config) middleware.Handler { return edns.New(cfg) })
 	} else {
 		defaults.RegisterUpTo("resolver")
 	}
-	middleware.Register("verif-c05-stub", func(*config.Config) middleware.Handler { return vC05Stub{log: &vs.log, epoch: &vs.epoch} })
+	middleware.Register("verif-c05-stub", func(*config.Config) middleware.Handler { return vC05Stub{mu: &vs.mu, fg: &vs.fg, log: &vs.log, epoch: &vs.epoch} })
 	cfg := vC05Config(t, hostsPath)
 	middleware.Setup(cfg)
 	vs.s = New(cfg)
 	middleware.Reset()
 	return vs
+}
+
+func (vs *vC05Server) resetLog() {
+	vs.mu.Lock()
+	vs.log = vs.log[:0]
+	vs.mu.Unlock()
+}
+
+// takeLog: what the stub saw during the step - the packet's own queries in order, then the background
+// queries as a sorted multiset (call after settle()).
+func (vs *vC05Server) takeLog() string {
+	vs.mu.Lock()
+	defer vs.mu.Unlock()
+	var fg, bg []string
+	for _, l := range vs.log {
+		if strings.HasPrefix(l, "bg ") {
+			bg = append(bg, l)
+		} else {
+			fg = append(fg, l)
+		}
+	}
+	sort.Strings(bg)
+	return strings.Join(append(fg, bg...), "\n")
 }
 
 func (vs *vC05Server) stop() {
@@ -1221,7 +1270,7 @@ func vC05RunScenario(t vC05Toggles, hostsPath string, steps []vC05Step) []vC05St
 			out[i].w = []string{"engine", "", "", "", "", "", ""}
 			continue
 		}
-		sw.log = sw.log[:0]
+		sw.resetLog()
 		if st.probe {
 			// probes compare state: same (decoded) path on both servers
 			out[i].w = viaMsg(sw, st)
@@ -1261,7 +1310,7 @@ func vC05RunScenario(t vC05Toggles, hostsPath string, steps []vC05Step) []vC05St
 		if t.prefetch && !sw.settle() {
 			out[i].unsettled = true
 		}
-		out[i].wLog = strings.Join(sw.log, "\n")
+		out[i].wLog = sw.takeLog()
 	}
 	sw.stop()
 	if t.entryRate > 0 {
@@ -1274,15 +1323,63 @@ func vC05RunScenario(t vC05Toggles, hostsPath string, steps []vC05Step) []vC05St
 			out[i].m = out[i].w
 			continue
 		}
-		sm.log = sm.log[:0]
+		sm.resetLog()
 		out[i].m = viaMsg(sm, st)
 		if t.prefetch && !sm.settle() {
 			out[i].unsettled = true
 		}
-		out[i].mLog = strings.Join(sm.log, "\n")
+		out[i].mLog = sm.takeLog()
 	}
 	sm.stop()
 	return out
+}
+
+// vC05HopRefreshOnly CLASSIFIES a hand-off difference as the known finding chase-hop-prefetch
+// (never accepts one): the byte path composed an alias chain from cached hops (outcome counter
+// chase_served), the refresh queue is configured, the two client-visible replies are equal, and the
+// only thing the decoded-path server's resolver saw beyond the wire-path server's is background
+// (non-client) traffic for the client's qtype/qclass at a name other than the one asked - the refresh
+// of a hop.  Anything else (a client query reaching resolution on one side only, a refresh on the wire
+// side only, another type, the queried name itself) stays a plain failure.
+func vC05HopRefreshOnly(tg vC05Toggles, st vC05Step, ob vC05StepObs) bool {
+	if !tg.prefetch || st.probe || !strings.Contains(ob.route, "chase_served") || ob.wLog == ob.mLog {
+		return false
+	}
+	for k := range ob.w {
+		if ob.w[k] != ob.m[k] {
+			return false
+		}
+	}
+	q := new(dns.Msg)
+	if err := q.Unpack(st.raw); err != nil || len(q.Question) != 1 {
+		return false
+	}
+	lines := func(l string) []string {
+		if l == "" {
+			return nil
+		}
+		return strings.Split(l, "\n")
+	}
+	wl, ml := lines(ob.wLog), lines(ob.mLog)
+	extra := 0
+	for _, l := range ml {
+		if len(wl) > 0 && wl[0] == l {
+			wl = wl[1:]
+			continue
+		}
+		// an extra line on the decoded side: must be a background query for a hop
+		isBg := strings.HasPrefix(l, "bg ")
+		l = strings.TrimPrefix(l, "bg ")
+		f := strings.SplitN(l, " ", 2)
+		qf := strings.Split(f[0], "/")
+		if !isBg || strings.HasSuffix(l, " client") || len(qf) != 3 ||
+			qf[1] != strconv.Itoa(int(q.Question[0].Qtype)) || qf[2] != strconv.Itoa(int(q.Question[0].Qclass)) ||
+			strings.EqualFold(qf[0], q.Question[0].Name) {
+			return false
+		}
+		extra++
+	}
+	return len(wl) == 0 && extra > 0
 }
 
 func vC05Differs(obs []vC05StepObs) (int, bool) {
@@ -1460,6 +1557,9 @@ func TestVerifC05Differential(t *testing.T) {
 	// ------------------------------------------------ phase 2: two-server differential
 	budget := n - nIngress
 	scen := 0
+	// VERIF_C05_STRICT=1: the classes of the known findings that have a fix candidate are reported as
+	// plain failures (used to verify the candidate in a scratch worktree)
+	strict := os.Getenv("VERIF_C05_STRICT") != ""
 	// scripted histories first: the ladder orders and hand-overs the random histories reach rarely
 	type sq struct {
 		name  string
@@ -1561,6 +1661,19 @@ func TestVerifC05Differential(t *testing.T) {
 		pk("pos0", 1, 0x0100, false, true, 1232), sh(299), pk("pos0", 1, 0x0100, false, true, 1232), sh(2), pk("pos0", 1, 0x0100, false, true, 1232))
 	add2(vC05Toggles{}, pk("nx1", 1, 0x0100, true, true, 1232), pk("a.nx1", 1, 0x0100, true, true, 1232), sh(30), pk("a.nx1", 1, 0x0100, false, true, 1232), sh(40), pk("a.nx1", 1, 0x0100, false, true, 1232), pk("nxf0", 1, 0x0100, false, true, 1232),
 		pk("sf0", 1, 0x0100, false, true, 1232), pk("sf0", 1, 0x0100, false, true, 1232), sh(4), pk("sf0", 1, 0x0100, false, true, 1232), sh(10), pk("sf0", 1, 0x0100, false, true, 1232), pk("sf0", 1, 0x0100, false, true, 1232))
+	// refresh queue on.  (i) an alias chain whose hop enters its refresh window while the alias itself is
+	// far from it: ca1 (ttl 3600) -> pos2 (ttl 5, window = its last second) - finding chase-hop-prefetch,
+	// the byte-path composer does not tick the hop's refresh.  (ii) a three-hop chain admitted 100 s
+	// before its alias: the alias inherits the hops' lifetime, so all four entries enter their windows
+	// together, the alias declines on both paths and four refreshes run concurrently on the queue's
+	// workers (their order at the resolver is not an observable; see vC05Stub).  Single pass and
+	// inline+replay; afterwards the hop and the alias are asked again.
+	for _, inline := range []bool{false, true} {
+		add2(vC05Toggles{prefetch: true, inline: inline}, pk("ca1", 28, 0x0100, false, true, 1232), pk("ca1", 28, 0x0100, false, true, 1232), sh(4),
+			pk("ca1", 28, 0x0100, false, true, 1232), pk("pos2", 28, 0x0100, false, true, 1232), pk("ca1", 28, 0x0100, false, true, 1232))
+		add2(vC05Toggles{prefetch: true, inline: inline}, pk("cb0", 1, 0x0100, false, true, 1232), sh(100), pk("ca0", 1, 0x0100, false, true, 1232), pk("ca0", 1, 0x0100, false, true, 1232), sh(175),
+			pk("ca0", 1, 0x0100, false, true, 1232), pk("ca0", 1, 0x0100, false, true, 1232), pk("pos0", 1, 0x0100, false, true, 1232), sh(20), pk("ca0", 1, 0x0100, false, true, 1232), pk("cb0", 1, 0x0100, false, true, 1232))
+	}
 	// client subnet forwarding: enabled for everybody / for an allow-list, clients reported in 16-byte
 	// (IPv4-mapped) and 4-byte form and IPv6, inside and outside the list; misses, hits, other subnets,
 	// the same names without the option
@@ -1713,11 +1826,23 @@ func TestVerifC05Differential(t *testing.T) {
 			steps = scriptedSteps[scen-1]
 			nsteps = len(steps)
 		}
+		if only := vC05EnvInt("VERIF_C05_SCEN", 0); only > 0 && scen != only {
+			// debugging aid: replay one scenario of a seed (the generator draws above are unaffected)
+			budget -= nsteps
+			continue
+		}
 		obs := vC05RunScenario(tg, hostsPath, steps)
-		if at, drift := vC05Differs(obs); at >= 0 && (drift || tg.entryRate > 0 || tg.clientRate > 0) {
-			// a second may have passed between store and serve, or a token bucket refilled
-			// mid-run: rerun on fresh servers; only a difference that shows at the same
-			// step every time is reported
+		if os.Getenv("VERIF_C05_DEBUG") != "" {
+			for i, ob := range obs {
+				fmt.Fprintf(os.Stderr, "scen %d step %d [%s] %s\n  route=%s unsettled=%v\n  w=%s\n  m=%s\n  wlog={%s}\n  mlog={%s}\n", scen, i, tg.String(), steps[i].tag, ob.route, ob.unsettled,
+					strings.Join(ob.w, " ; "), strings.Join(ob.m, " ; "), ob.wLog, ob.mLog)
+			}
+		}
+		if at, _ := vC05Differs(obs); at >= 0 {
+			// a second may have passed between store and serve (TTL truncation, expiry and
+			// refresh thresholds all read the wall clock), or a token bucket refilled mid-run:
+			// whatever the difference is, rerun on fresh servers; only a difference that shows
+			// at the same step every time is reported (no verdict depends on machine load)
 			for retry := 0; retry < 2; retry++ {
 				if tg.entryRate > 0 {
 					time.Sleep(1100 * time.Millisecond)
@@ -1739,6 +1864,7 @@ func TestVerifC05Differential(t *testing.T) {
 			st := steps[i]
 			goFail := ""
 			fkey := ""
+			hopKnown := false
 			for k := range ob.w {
 				if ob.w[k] != ob.m[k] {
 					goFail = fmt.Sprintf("replies differ in %s: wire{%s} msg{%s}", vC05Comp[k], ob.w[k], ob.m[k])
@@ -1753,6 +1879,11 @@ func TestVerifC05Differential(t *testing.T) {
 			}
 			if goFail == "" && ob.wLog != ob.mLog {
 				goFail = fmt.Sprintf("resolution hand-off differs: wire saw {%s} msg saw {%s}", ob.wLog, ob.mLog)
+				if firstBad < 0 && !strict && vC05HopRefreshOnly(tg, st, ob) {
+					// known finding: a hop of a byte-composed alias chain is never refreshed
+					hopKnown = true
+					goFail = "a cached hop of an alias chain composed on the byte path does not tick its refresh: " + goFail
+				}
 			}
 			if goFail != "" && firstBad >= 0 {
 				// states have already diverged: later differences are consequences
@@ -1767,9 +1898,16 @@ func TestVerifC05Differential(t *testing.T) {
 			if st.probe {
 				kind = "probe/" + ob.w[0]
 			}
+			if hopKnown {
+				kind = "diff/chase-hop-prefetch"
+			}
 			var hist []string
 			if goFail != "" {
 				for _, p := range steps[:i+1] {
+					if p.ctl != "" {
+						hist = append(hist, "ctl: "+p.tag)
+						continue
+					}
 					hist = append(hist, hex.EncodeToString(p.raw)+" "+p.ip.String())
 				}
 			}
@@ -1797,6 +1935,9 @@ func TestVerifC05Differential(t *testing.T) {
 			if fkey != "" {
 				// reported once through emitKnown; keep this step out of the plain comparison
 				rec["inconclusive"] = true
+			}
+			if hopKnown && !unsettled {
+				rec["fkey"] = "chase-hop-prefetch"
 			}
 			emit(rec)
 		}
